@@ -259,7 +259,11 @@ pub fn run_variants<K: KeyT, V: ValT>(prop: Prop, spec: &RunSpec, thorough: bool
             }
             let mut stop = so.fatal;
             for a in anomalies {
-                if owns(prop, &a) {
+                if owns(prop, &a) && crate::run::is_soft(&a) {
+                    if out.soft.is_none() {
+                        out.soft = Some(a);
+                    }
+                } else if owns(prop, &a) {
                     if out.violation.is_none() {
                         let mut a = a;
                         a.detail = format!("[continuation {} = {:?}] {}", ci, cont, a.detail);
